@@ -18,6 +18,15 @@ class MonitorViolation(Exception):
 _armed = {}
 
 
+def short(x):
+    """repr for messages; huge integers abbreviated"""
+    if isinstance(x, int) and not isinstance(x, bool) and x.bit_length() > 512:
+        return f"<int of {x.bit_length()} bits>"
+    if isinstance(x, (bytes, bytearray)) and len(x) > 64:
+        return f"<{len(x)} bytes {bytes(x[:16])!r}...>"
+    return repr(x)
+
+
 def window_bits(buf, p, n):
     """the n bits starting at bit p of buf, computed from the covering bytes only (keeps the oracle O(n), not O(len))"""
     lo, hi = p // 8, (p + n + 7) // 8
@@ -61,7 +70,7 @@ def arm_reads(ctx, tag="c03"):
         elif bytes(self) != OLD.buf:
             key = "read_as_int/buffer-changed"
         if key:
-            c.violation(key, f"read_as_int(pos={p}, nbits={nbits}) -> {result!r} pos'={self.pos}; expected {exp} pos'={p + nbits}",
+            c.violation(key, f"read_as_int(pos={p}, nbits={nbits}) -> {short(result)} pos'={self.pos}; expected {short(exp)} pos'={p + nbits}",
                         {"buf": OLD.buf[:64], "len": len(OLD.buf), "pos": p, "nbits": nbits, "result": result,
                          "expected": exp, "pos_after": self.pos})
         c.sig("int", p % 8, nbits % 8, _wide(nbits))
@@ -84,7 +93,7 @@ def arm_reads(ctx, tag="c03"):
         elif bytes(self) != OLD.buf:
             key = "read_as_bytes/buffer-changed"
         if key:
-            c.violation(key, f"read_as_bytes(pos={p}, nbits={nbits}) -> {result!r} pos'={self.pos}; expected {exp!r} pos'={p + nbits}",
+            c.violation(key, f"read_as_bytes(pos={p}, nbits={nbits}) -> {short(result)} pos'={self.pos}; expected {short(exp)} pos'={p + nbits}",
                         {"buf": OLD.buf[:64], "len": len(OLD.buf), "pos": p, "nbits": nbits, "result": result,
                          "expected": exp, "pos_after": self.pos})
         c.sig("bytes", p % 8, nbits % 8, _wide(nbits))
@@ -99,7 +108,7 @@ def arm_reads(ctx, tag="c03"):
         c.count("_extract_bits.evaluations")
         exp = bits.u(window_bits(bytes(data), start_bit, nbits))
         if result != exp:
-            c.violation("_extract_bits/value", f"_extract_bits(len={len(data)}, {start_bit}, {nbits}) -> {result!r}; expected {exp}",
+            c.violation("_extract_bits/value", f"_extract_bits(len={len(data)}, {start_bit}, {nbits}) -> {short(result)}; expected {short(exp)}",
                         {"buf": bytes(data)[:64], "start_bit": start_bit, "nbits": nbits, "result": result, "expected": exp})
         return True
 
